@@ -62,6 +62,12 @@ var specs = map[string]propSpec{
 		},
 		Assumptions: append([]string{"the parse tree is observed through the verif-tagged hook VerifParseDump, which renders the tree produced by the unexported parse() without changing it", "the reference for chains is a table-driven precedence-climbing parser over XPath 1.0's tiers"}, commonAssumptions...),
 	},
+	"C14": {
+		Units: []unitSpec{
+			{Name: "rapid-namespaces", Test: "TestC14Rapid", Rapid: true, QuickChecks: 60000, ThoroughChecks: 700000, QuickShards: 4, ThoroughShards: 16},
+		},
+		Assumptions: refAssumptions("the oracle is the statement transcribed; nothing is asserted where it is silent (unprefixed tests under a map, prefix:*, navigators without NamespaceURL under a map)"),
+	},
 	"C11": {
 		Units: []unitSpec{
 			{Name: "rapid-union", Test: "TestC11Rapid", Rapid: true, QuickChecks: 60000, ThoroughChecks: 700000, QuickShards: 4, ThoroughShards: 16},
